@@ -415,4 +415,57 @@ def toGffLines (c : SColl) (chromRel : Bool) (raise : Bool) : Except Err (List S
     let cx ← mkCtx c chromRel raise
     (sortedRows cx c).mapM rowStr
 
+/-! ### collection_to_gff3: header, `##sequence-region`, feature lines, `##FASTA` (io/gff3/writer.py:12-84)
+
+  Pure string assembly around `toGffLines`.  A collection is handed to the writer together with what the writer
+  reads from it besides the rows: `collection.sequence` (the parent's sequence as text, `none` without one) and
+  whether it has a sequence-chunk ancestor (= `coll.par` is a chunk).  The result is the list of printed lines
+  (`print` terminates each with LF). -/
+
+structure GColl where
+  coll : SColl
+  /-- `str(collection.sequence)`; `none` when the collection has no sequence -/
+  seq : Option Str
+  deriving Repr, DecidableEq, Inhabited
+
+def GColl.isChunk (g : GColl) : Bool := match g.coll.par with | .chunk _ _ => true | _ => false
+
+/-- `collection.sequence_name` as `str.format` / the sort key sees it -/
+def GColl.name (g : GColl) : Str := match g.coll.seqName with | some s => s | none => ['N', 'o', 'n', 'e']
+
+def headerLine : Str := "##gff-version 3".toList
+def fastaHeaderLine : Str := "##FASTA".toList
+def regionPrefix : Str := "##sequence-region ".toList
+
+/-- `"##sequence-region {symbol} 1 {length}".format(...)` -/
+def regionLine (name : Str) (len : Nat) : Str := regionPrefix ++ name ++ [' ', '1', ' '] ++ natStr len
+
+/-- `[s[i:i+n] for i in range(0, len(s), n)]` -/
+def chunksOf (n : Nat) (fuel : Nat) (s : Str) : List Str :=
+  match fuel with
+  | 0 => []
+  | fuel + 1 => if s.isEmpty then [] else s.take n :: chunksOf n fuel (s.drop n)
+
+/-- the lines of `>{collection.sequence_name}\n{fasta_body}` (Sequence.to_fasta breaks every 60 characters;
+    since 5f9d162 the record is named like column 1, not like the chunk) -/
+def fastaRecord (name : Str) (seq : Str) : List Str := ('>' :: name) :: chunksOf 60 seq.length seq
+
+def sortByName (cs : List GColl) : List GColl := cs.mergeSort fun a b => strLe a.name b.name
+
+/-- `collection_to_gff3(collections, handle, add_sequences, ordered, chromosome_relative_coordinates,
+    raise_on_reserved_attributes)`: the printed lines, or the first exception -/
+def gff3Lines (cs : List GColl) (addSeq ordered chromRel raise : Bool) : Except Err (List Str) := do
+  if chromRel && addSeq && cs.any (·.isChunk) then throw .Export
+  let cs := if ordered then sortByName cs else cs
+  let regions ← (if addSeq then
+      cs.mapM fun g => match g.seq with
+        | none => (.error .Export : Except Err Str)
+        | some s => .ok (regionLine g.name s.length)
+    else .ok [])
+  let rows ← cs.mapM fun g => toGffLines g.coll chromRel raise
+  let fasta := if addSeq then
+      fastaHeaderLine :: cs.flatMap fun g => match g.seq with | some s => fastaRecord g.name s | none => []
+    else []
+  pure (headerLine :: regions ++ rows.flatten ++ fasta)
+
 end BioCantor.Model.Gff
